@@ -117,7 +117,7 @@ def judge_model(ctx, model, attrs, shape, what=''):
                     d = models.maxdiff(v1, v2)
                     worst = max(worst, d if np.isfinite(d) else np.inf)
             ctx.stat('stored_vs_reinferred_over_total', worst / total if np.isfinite(worst) else 1e308)
-            ctx.check(okk and worst <= 1e-7 * total, 'stored_vs_reinferred', 'incoherent',
+            ctx.check(okk and worst <= max(1e-7, sum_rtol) * total, 'stored_vs_reinferred', 'incoherent',
                       '%sstored clique marginals differ from belief_propagation(potentials) by %.3e (total %g)' % (what, worst, total), **info)
         else:
             ctx.mon('no_stored_marginals')
@@ -143,7 +143,7 @@ def judge_model(ctx, model, attrs, shape, what=''):
             if bad is None and full_ok and name != 'datavector':
                 ref = oracles.marginal(full, list(attrs), at)
                 d = models.maxdiff(v, ref)
-                ctx.check(d <= 1e-7 * total, 'answers_agree', 'disagree',
+                ctx.check(d <= max(1e-7, sum_rtol) * total, 'answers_agree', 'disagree',
                           '%s%s differs from the marginal of the full vector by %.3e (total %g)' % (what, name, d, total), **info)
             if bad is not None:
                 break
